@@ -874,6 +874,9 @@ def feat_c15(tok):
             return "reg:" + " ".join(args)
     return None
 
+def c15_trace_params(exe):
+    return {"ptfile": os.path.join(os.path.dirname(exe), "instr", "points.txt")}
+
 PROPS["C15"] = dict(
     level_text="Theorems (Properties/C15.v): PublishContext's three parallel slices with the index re-basing loop (early break) as coded keep a "
                "representation invariant (refs strictly increasing, in range, pointing at the guarded sends) under EVERY select outcome and equal a "
@@ -896,7 +899,9 @@ PROPS["C15"] = dict(
          "subscription strictly inside >=3 pending, or a cancellation of a pending guarded subscription followed by a delivery; registry case with "
          "sub+unsub+publish and a panic; distinct by full record"
          " C15REG also subscribes with no / live / already cancelled contexts (a rejected duplicate must not replace the registered context) and checks that a publish blocked on SubscribeCancel subscriptions returns when their cancel functions are called.",
-    stages=[corr_stage("C15K1", 2500, 6000, feature=feat_c15, seeds=3),
+    stages=[corr_stage("C15TRACE", 500, 5000, params=c15_trace_params, instrument=True,
+                       feature=lambda tok: " ".join(tok[5:60]) if tok[0] == "F" else None),
+            corr_stage("C15K1", 2500, 6000, feature=feat_c15, seeds=3),
             corr_stage("C15REG", 2500, 5000, feature=feat_c15, seeds=2),
             corr_stage("C15K2", 100, 800, validate=False, seeds=2),
             corr_stage("C15UNSUB", 300, 1500, validate=False, seeds=2)],
@@ -919,7 +924,12 @@ _EXCL_NOTE = ("Trusted: Coq kernel, extraction (ExtrOcamlBasic), OCaml adapter (
               "exclusive.go: each critical section on item.mutex is one step; Exclusive.mutex sections are part of the step that takes them; lock-order "
               "deadlock freedom (item before map) is argued, not modelled. Its tie to the code is the monitors on gated/free-running/delay-swept histories.")
 
+def c09_trace_params(exe):
+    return {"ptfile": os.path.join(os.path.dirname(exe), "instr", "points.txt")}
+
 _EXCL_STAGES = lambda: [
+    corr_stage("C09TRACE", 300, 3000, params=c09_trace_params, instrument=True,
+               feature=lambda tok: " ".join(tok[5:45]) if tok[0] == "F" else None),
     corr_stage("C09K1", 1000, 6000, feature=feat_c09, seeds=3),
     corr_stage("C09K2", 800, 5000, feature=feat_c09, seeds=3),
     corr_stage("C09S", 6, 20, feature=feat_c09, instrument=True, shards=6, tparams={"points": 1000}),
